@@ -303,7 +303,12 @@ func (p *peer) serveStream(reconnectCount int, backoff *time.Timer) (err error) 
 	if err != nil {
 		return err
 	}
-	return s.serve()
+	err = s.serve()
+	if err == nil {
+		// The stream has ended without an error (e.g. io.EOF while sending), reconnect unless the peer is stopped.
+		err = errors.New("stream closed")
+	}
+	return err
 }
 
 func (s *stream) serve() error {
